@@ -53,7 +53,7 @@ static Case gen_case() {
             switch (weighted({4, 3, 3, 2})) {
             case 0: len = pick(0, 40); break;
             case 1: len = pick(0, 600); break;
-            case 2: len = pick(8192 - 140, 8192 + 20); break; // around the no-alloc logger's line buffer
+            case 2: len = 20000 + pick(0, 160); break; // buffer - 140 .. buffer + 20, around the no-alloc logger's line buffer (measured in run())
             default: len = pick(0, 9000); break;
             }
             return mkop(LOG, {pick(1, 6), weighted({3, 2, 3}) == 2 ? 2 + pick(0, NSUBJ - 1) : pick(0, 1), shape, len, any_u64()});
@@ -210,6 +210,28 @@ static void run(const Case &c, Ctx &ctx) {
         // lines arrive asynchronously, so they are checked after clean-up, which must flush everything accepted
         else PBT_CHECK(aws_logger_init_standard(&logger, alloc, &lo) == AWS_OP_SUCCESS);
     }
+    // The no-alloc logger cuts lines at an "internal constant" (logging.h): measured here, not assumed - the length of the
+    // line a 100 000-byte message comes out as is the longest line this logger emits.
+    size_t noalloc_max = 0;
+    if (kind == NOALLOC) {
+        char *pb = nullptr;
+        size_t ps = 0;
+        FILE *pf = open_memstream(&pb, &ps);
+        PBT_CHECK(pf != nullptr);
+        struct aws_logger probe;
+        struct aws_logger_standard_options po = {AWS_LL_TRACE, nullptr, pf};
+        PBT_CHECK(aws_logger_init_noalloc(&probe, alloc, &po) == AWS_OP_SUCCESS);
+        std::string big(100000, 'p');
+        probe.vtable->log(&probe, AWS_LL_FATAL, AWS_LS_COMMON_GENERAL, "%s", big.c_str());
+        aws_logger_clean_up(&probe);
+        fflush(pf);
+        noalloc_max = ps;
+        bool nl = ps > 0 && pb[ps - 1] == '\n';
+        fclose(pf);
+        free(pb);
+        PBT_CHECK(noalloc_max >= 200 && noalloc_max < 100000 && nl, "no-alloc logger: a 100000-byte message came out as %zu bytes%s", noalloc_max,
+                  nl ? "" : " without a newline");
+    }
     struct Pending {
         int lv;
         std::string sname, msg;
@@ -253,7 +275,8 @@ static void run(const Case &c, Ctx &ctx) {
                 PBT_CHECK(sname == g_subj_names[sk - 2], "registered subject name not returned");
                 if (sname.size() >= 80) ctx.tag("long_subject_name");
             }
-            size_t len = (size_t)(op.arg(3) % 9001);
+            size_t raw = (size_t)(op.arg(3) % 20161);
+            size_t len = raw < 20000 ? raw % 9001 : (kind == NOALLOC ? noalloc_max + 1 : 8192) - 140 + (raw - 20000);
             uint64_t seed = op.arg(4);
             std::string msg;
             std::string s = make_str(len, seed);
@@ -298,8 +321,9 @@ static void run(const Case &c, Ctx &ctx) {
             expected_lines++;
             bool cut = false;
             if (kind == NOALLOC) {
-                PBT_CHECK(lines[0].size() <= 8192, "no-alloc line of %zu bytes exceeds the 8192-byte buffer", lines[0].size());
-                check_line(lines[0], lv, sname, msg, df, /*may_be_cut=*/true, 8192, &cut);
+                PBT_CHECK(lines[0].size() <= noalloc_max, "no-alloc line of %zu bytes is longer than the longest line this logger emits (%zu)", lines[0].size(),
+                          noalloc_max);
+                check_line(lines[0], lv, sname, msg, df, /*may_be_cut=*/true, noalloc_max + 1, &cut);
             } else {
                 check_line(lines[0], lv, sname, msg, df, false, 0, &cut);
             }
@@ -411,7 +435,7 @@ int main(int argc, char **argv) {
     register_subjects();
     Spec sp{"C14", "c14_log", gen_case, run,
             "<=40 ops: log calls through AWS_LOGF at each level with 5 format shapes and message lengths 0..9000 (dense around "
-            "the no-alloc logger's 8192-byte buffer), level changes, conditional-get, direct formatter calls with buffers of "
+            "the no-alloc logger's line buffer, whose size is measured), level changes, conditional-get, direct formatter calls with buffers of "
             "1..400 bytes; pipeline logger (default formatter x 3 date formats, foreground channel, recording writer) or no-alloc "
             "logger into a memory stream; non-trivial = a truncated line, or a level change between calls with a filtered call"};
     return pbt_main(argc, argv, sp);
